@@ -342,6 +342,15 @@ CHECKS["C18"]["text"] += (" The count-level functions (compute_num_freqs, comput
                           "identities above are theorems about the code as translated; suite gen_multipitch runs the translated "
                           "definitions against the real functions (all count triples over {0..3} up to length 2/3, every length "
                           "combination incl. NumPy broadcasting).")
+CHECKS["C17"]["text"] += (" _count_inversions (its two-pointer while loop as a fuel-indexed recursion whose fuel is proved never "
+                          "to bind), _compare_frame_rankings, _gauc, _round, _hierarchy_bounds, _lca, _meet, tmeasure and lmeasure are "
+                          "REGENERATED from mir_eval/hierarchy.py on every run (translator part `hierarchy` -> "
+                          "lean/MirGen/Hierarchy.lean) and Props/C17_Gen.lean proves each translated definition equal to the hand "
+                          "model for ALL inputs (rank vectors, matrices, windows, hierarchies, label lists, both transitive values; "
+                          "frame_size > 0 for the private matrix builders, beta > 0 for the public functions; value or exception "
+                          "class), so 'T-/L-measure = triplet definition' is a theorem about the code as translated; suite "
+                          "gen_hierarchy runs the translated definitions against the real functions (exhaustively on small rank "
+                          "vectors, on the hierarchy / label / fault streams).")
 
 
 def main():
